@@ -68,5 +68,30 @@ Print Assumptions C20_trim.
 Theorem C20_trim_no_open : forall order ps,
   Permutation order trim_names -> lits_ok no_open ps -> Forall tok_wf ps ->
   trim_fmt order (render ps) = trim_expected ps.
-Proof. intros order ps P HL HW. apply trim_fmt_any_order; [exact P|split; assumption]. Qed.
+Proof. exact trim_fmt_any_order_no_open. Qed.
 Print Assumptions C20_trim_no_open.
+
+(* ---- StripRaw after Fmt: the literal pieces, whenever no text following a colour token
+   begins with a digit or a comma.  `colourish` = a colour name, a {fg,bg} pair, or {c}/{clear}
+   (whose code is the bare colour introducer \x03): with "colour token" read as the names of
+   fmtColors only the clause is false, Fmt("{c}5") = "\x035" strips to "" -
+   Proofs/FormatProofs.v strip_fmt_literal_reading_refuted. ---- *)
+
+Theorem C20_strip_fmt : forall ps,
+  lits_ok (fun s => brace_free s /\ ctrl_free s) ps -> Forall known1 ps -> spaced colourish ps ->
+  strip_raw (fmt (render ps)) = literals ps.
+Proof. exact strip_fmt_pieces_brace_free. Qed.
+Print Assumptions C20_strip_fmt.
+
+Theorem C20_strip_fmt_no_open : forall ps,
+  lits_ok (fun s => no_open s /\ ctrl_free s) ps -> Forall known1 ps -> spaced colourish ps ->
+  strip_raw (fmt (render ps)) = literals ps.
+Proof. exact strip_fmt_pieces. Qed.
+Print Assumptions C20_strip_fmt_no_open.
+
+Theorem C20_strip_fmt_literal_reading_refuted :
+  exists ps,
+    lits_ok (fun s => brace_free s /\ ctrl_free s) ps /\ Forall known1 ps /\ spaced colour_tok ps /\
+    fmt (render ps) = [3; 53] /\ strip_raw (fmt (render ps)) = [] /\ literals ps = [53].
+Proof. exact strip_fmt_literal_reading_refuted. Qed.
+Print Assumptions C20_strip_fmt_literal_reading_refuted.
